@@ -123,6 +123,16 @@ func TestC10(t *testing.T) {
 				cases = append(cases, mon.CaseSpec{Name: fmt.Sprintf("blocked/%s/%s/peer=true", p, tr), Spec: spec{Kind: "blocked", Proto: p, Tran: tr, Peer: true, Yield: rnd.Intn(2) == 0}})
 			}
 		}
+		// ws / wss listeners whose handler the application mounts in its own http.Server (the transport
+		// binds no port): state at Close x what is closed; protocol, second handler, yields from the PRNG
+		for _, tr := range []string{"ws", "wss"} {
+			for _, st := range []string{"idle", "accepted", "pending"} {
+				for _, act := range []string{"socket", "listener"} {
+					p := hx.AllProtos[rnd.Intn(len(hx.AllProtos))]
+					cases = append(cases, mon.CaseSpec{Name: "exthandler/" + tr + "/" + act + "/" + st + "/" + p, Spec: spec{Kind: "exthandler", Tran: tr, Act: act, Target: st, Proto: p, Peer: rnd.Intn(3) == 0, Yield: rnd.Intn(2) == 0}})
+				}
+			}
+		}
 		for _, p := range []string{"req", "rep", "sub", "surveyor", "respondent", "pair", "bus"} {
 			tr := cePrefix + []string{"inproc", "tcp", "ipc"}[rnd.Intn(3)]
 			cases = append(cases, mon.CaseSpec{Name: "sibling/pipe/" + p + "/" + tr, Spec: spec{Kind: "sibling", Target: "pipe", Proto: p, Tran: tr}})
@@ -164,6 +174,8 @@ func TestC10(t *testing.T) {
 			runCloseLoser(c, sp)
 		case "peergone":
 			runPeerGone(c, sp)
+		case "exthandler":
+			runExtHandler(c, sp)
 		}
 		if n := ceCloses.Swap(0); n > 0 {
 			c.Count("pipe_closes_reporting_an_error", int(n))
